@@ -10,6 +10,7 @@ CONSTANTS
   ServeFromIndexNotOrder = FALSE
   TrustScanOrder = FALSE
   SwapBeforeApply = FALSE
+  BatchOnSharedCopy = FALSE
   MaxSteps = 36
 INVARIANT Emit
 CHECK_DEADLOCK FALSE
